@@ -1,0 +1,80 @@
+//go:build verif
+
+package rpcv10
+
+// Contracts for gocv (contract-based deductive verification, /verif).
+
+//@ opaque type github.com/NethermindEth/juno/core/felt.Felt
+
+//@ ghost func errIs(err error, target error) bool
+//@ extern func errors.Is
+//@   ensures result == errIs(err, target)
+//@   ensures err == target && err != nil ==> result
+//@   ensures err == nil && target != nil ==> !result
+
+// ---- the chain reader: assumed contracts that record what was asked and answered -------
+//@ ghost var lastErr error
+//@ ghost var lastBlock *core.Block
+//@ ghost var l1Num uint64
+//@ ghost var heightV uint64
+//@ extern func github.com/NethermindEth/juno/blockchain.Reader.Head
+//@   logged
+//@   assigns lastErr, lastBlock
+//@   ensures lastErr == result1 && lastBlock == result0
+//@ extern func github.com/NethermindEth/juno/blockchain.Reader.BlockByHash
+//@   logged
+//@   assigns lastErr, lastBlock
+//@   ensures lastErr == result1 && lastBlock == result0
+//@ extern func github.com/NethermindEth/juno/blockchain.Reader.BlockByNumber
+//@   logged
+//@   assigns lastErr, lastBlock
+//@   ensures lastErr == result1 && lastBlock == result0
+//@ extern func github.com/NethermindEth/juno/blockchain.Reader.L1Head
+//@   logged
+//@   assigns lastErr, l1Num
+//@   ensures lastErr == result1 && (result1 == nil ==> l1Num == result0.BlockNumber)
+//@ extern func github.com/NethermindEth/juno/blockchain.Reader.Height
+//@   logged
+//@   assigns lastErr, heightV
+//@   ensures lastErr == result1 && (result1 == nil ==> heightV == result0)
+//@ extern func github.com/NethermindEth/juno/jsonrpc.(*Error).CloneWithData
+//@   ensures fresh(result) && result != nil
+
+// ---- block identifiers -------------------------------------------------------------------
+//@ ghost func idNumber(data felt.Felt) uint64
+//@ func (*BlockID).Number
+//@   trusted
+//@   requires b != nil && b.typeID == number
+//@   ensures result == idNumber(b.data)
+
+// Finality rule: a block is L1-verified iff an L1 head is recorded and is at or above it.
+//@ func isL1Verified
+//@   props C08
+//@   arith int
+//@   ensures rule: result <==> ((l1.BlockNumber != 0 || l1.BlockHash != nil || l1.StateRoot != nil) && l1.BlockNumber >= n)
+
+// l1_accepted resolves to the L1 head bounded by the local height.
+//@ func (*Handler).l1AcceptedBlockNumber
+//@   props C08
+//@   arith int
+//@   requires h != nil
+//@   assigns lastErr, l1Num, heightV, calls_L1Head, calls_Height
+//@   ensures min: result1 == nil ==> result0 == min(l1Num, heightV)
+//@   ensures err: result1 != nil ==> result1 == lastErr
+
+// Each identifier kind is answered by exactly the matching reader call with exactly the
+// identifier's payload; not-found is reported iff the reader said not-found.
+//@ func (*Handler).blockByID
+//@   props C08
+//@   arith int
+//@   requires h != nil && blockID != nil && blockID.typeID != preConfirmed
+//@   requires validkind: blockID.typeID == latest || blockID.typeID == hash || blockID.typeID == number || blockID.typeID == l1Accepted
+//@   assigns lastErr, lastBlock, l1Num, heightV, calls_L1Head, calls_Height, calls_Head, calls_BlockByHash, calls_BlockByNumber, arg_BlockByHash_hash, arg_BlockByNumber_number
+//@   ensures latest: blockID.typeID == latest ==> calls_Head == old(calls_Head) + 1 && calls_BlockByHash == old(calls_BlockByHash) && calls_BlockByNumber == old(calls_BlockByNumber)
+//@   ensures byhash: blockID.typeID == hash ==> calls_BlockByHash == old(calls_BlockByHash) + 1 && arg_BlockByHash_hash == &blockID.data && calls_Head == old(calls_Head) && calls_BlockByNumber == old(calls_BlockByNumber)
+//@   ensures bynumber: blockID.typeID == number ==> calls_BlockByNumber == old(calls_BlockByNumber) + 1 && arg_BlockByNumber_number == idNumber(blockID.data) && calls_Head == old(calls_Head) && calls_BlockByHash == old(calls_BlockByHash)
+//@   ensures l1accepted: blockID.typeID == l1Accepted && calls_BlockByNumber == old(calls_BlockByNumber) + 1 ==> arg_BlockByNumber_number == min(l1Num, heightV)
+//@   ensures l1accepted_calls: blockID.typeID == l1Accepted ==> calls_Head == old(calls_Head) && calls_BlockByHash == old(calls_BlockByHash) && (calls_BlockByNumber == old(calls_BlockByNumber) + 1 || (calls_BlockByNumber == old(calls_BlockByNumber) && lastErr != nil))
+//@   ensures answer: result1 == nil ==> result0 != nil && result0 == lastBlock && lastErr == nil
+//@   ensures notfound: result1 == rpccore.ErrBlockNotFound <==> (lastErr != nil && (errIs(lastErr, db.ErrKeyNotFound) || errIs(lastErr, pending.ErrPreConfirmedNotFound)))
+//@   ensures exactly_one: (result0 == nil) <==> (result1 != nil)
